@@ -560,6 +560,19 @@ func (m *obsModel) observe(n *e1Node, e *logEntry, outs []outMsg, before *priv) 
 				for _, ck := range chansOf(before, subj) {
 					allowed = union(allowed, memberIDs(before, ck))
 				}
+			} else {
+				// the prefix does not name a nickname (e.g. a session that turned itself into a services link
+				// keeps its channels but announces under the link's name): the subject is a session that ends
+				// in this entry
+				for k, sb := range before.Sess {
+					if _, still := after.Sess[k]; still {
+						continue
+					}
+					allowed[sb.Id] = true
+					for _, ck := range chansOf(before, sb) {
+						allowed = union(allowed, memberIDs(before, ck))
+					}
+				}
 			}
 			membershipEvents++
 			allowOnly(allowed, "QUIT notification")
